@@ -379,6 +379,69 @@ func c06readerScenario(op string) *lib.Scenario {
 	return sc
 }
 
+// c06faultScenario: the operation under a single transient store failure at any of its store calls (the client goes on
+// and reports what it reports). Whatever it reports, no partial bundle is visible and earlier objects are intact; if it
+// reports success, its result is completely there; a retry works.
+func c06faultScenario(op string) *lib.Scenario {
+	sc := &lib.Scenario{Name: "fault:" + op}
+	sc.Setup = func(x *lib.Exec) { c06setup(x, op) }
+	sc.Phases = [][]lib.ClientFn{{func(x *lib.Exec, id int) error {
+		s := x.Data["s"].(*c06state)
+		bid, err := c06op(s, s.w.Gated(x, id, c06allGates), op)
+		s.attempts = append(s.attempts, bid)
+		return err
+	}}}
+	sc.Faults = transientFaults(0)
+	sc.Final = func(x *lib.Exec) {
+		s := x.Data["s"].(*c06state)
+		site := faultClass(x)
+		if x.Hung {
+			x.Violate("C06|hang|fault|op="+op, "operation never returned under "+site)
+			return
+		}
+		err := x.ClientErr[0]
+		if site == "none" && err != nil {
+			x.Violate("C06|operation-failed-without-fault|op="+op, err.Error())
+		}
+		st := s.w.Stores()
+		tag := "after-fault"
+		if err == nil {
+			tag = "after-fault-reported-success"
+		}
+		o1 := c06battery(x, s, st, op, tag, false)
+		if err == nil && site != "none" {
+			// the operation said it worked: its result must be there
+			switch op {
+			case "upload", "upload-empty", "commit":
+				bid := s.attempts[len(s.attempts)-1]
+				if has, _ := s.w.Meta.Has(context.Background(), model.GetArchivePathToBundle("r", bid)); !has {
+					x.Violate("C06|success-reported-but-bundle-not-visible|op="+op, fmt.Sprintf("%s returned nil under %s but bundle %s has no descriptor", op, site, bid))
+				}
+			case "label-move", "label-new":
+				name := map[string]string{"label-move": "l1", "label-new": "l2"}[op]
+				if got, gerr := getLabel(st, "r", name); gerr != nil || got != s.b2 {
+					x.Violate("C06|success-reported-but-label-not-set|op="+op, fmt.Sprintf("%s returned nil under %s but label %s resolves to %q (%v)", op, site, name, got, gerr))
+				}
+			}
+		}
+		// retry as a new client
+		bid, rerr := c06op(s, st, op)
+		s.attempts = append(s.attempts, bid)
+		retry := "ok"
+		if rerr != nil {
+			retry = "err"
+			done := err == nil || strings.Contains(site, "diamond-done")
+			if !(op == "commit" && done) {
+				x.Violate("C06|retry-fails|op="+op+"|after-fault", fmt.Sprintf("after %s (first attempt: %v) the retried operation failed: %v", site, err, rerr))
+			}
+		}
+		o2 := c06battery(x, s, st, op, "after-retry|fault", false)
+		c06immutability(x, s, "fault|op="+op)
+		x.SetOutcome(fmt.Sprintf("fault=%s;%s;%s;retry=%s;%s", site, errTag(err), o1, retry, o2))
+	}
+	return sc
+}
+
 // c06sameIDScenario: two uploaders (e.g. two workers of a migration job) upload different content with the SAME preserved
 // bundle ID, optionally while a third actor keeps downloading that bundle. Whatever the interleaving, at most one of
 // them may report success, the visible bundle must hold the content of the one that did, a reader must never see it
@@ -488,7 +551,7 @@ func TestC06(t *testing.T) {
 	if lib.Thorough() {
 		pb = 3
 	}
-	rep.Rule = fmt.Sprintf("history: 2 repos, 2 committed bundles (2 index files each), a label (+ a diamond with 2 done splits); operation under test in {upload, empty upload, diamond commit, label move, new label}: (1) a crash before/after EVERY store write (blob, metadata, vmetadata) of the operation, then the observer battery (ListBundles with page sizes 1..4, GetLatestBundle, Exists, full download of every visible bundle, labels), then a retry and the battery again; (2) the battery as a concurrent reader against the in-flight operation, all interleavings with <=%d preemptions at metadata-call granularity; (3) two uploaders of different content with the same preserved bundle ID and a reader downloading that bundle twice, all interleavings with one preemption fewer: at most one success, the visible bundle is the successful one's, the reader never sees it change, no metadata object rewritten; distinct = distinct (scenario, crash site, outcome)", pb)
+	rep.Rule = fmt.Sprintf("history: 2 repos, 2 committed bundles (2 index files each), a label (+ a diamond with 2 done splits); operation under test in {upload, empty upload, diamond commit, label move, new label}: (1) a crash before/after EVERY store write (blob, metadata, vmetadata) of the operation, then the observer battery (ListBundles with page sizes 1..4, GetLatestBundle, Exists, full download of every visible bundle, labels), then a retry and the battery again; (2) the battery as a concurrent reader against the in-flight operation, all interleavings with <=%d preemptions at metadata-call granularity; (3) two uploaders of different content with the same preserved bundle ID and a reader downloading that bundle twice, all interleavings with one preemption fewer: at most one success, the visible bundle is the successful one's, the reader never sees it change, no metadata object rewritten; (4) every operation under a single transient failure at EVERY store call (fail before; writes: fail after landing / after reading the body; reads: hang then fail): no partial bundle visible, earlier objects intact, a reported success means the result is completely there, a retry works; distinct = distinct (scenario, crash site, outcome)", pb)
 	ops := []string{"upload", "upload-empty", "commit", "label-move", "label-new"}
 	var scs []*lib.Scenario
 	var bounds [][2]int
@@ -506,6 +569,10 @@ func TestC06(t *testing.T) {
 	}
 	scs = append(scs, c06sameIDScenario())
 	bounds = append(bounds, [2]int{pb - 1, 0})
+	for _, op := range ops {
+		scs = append(scs, c06faultScenario(op))
+		bounds = append(bounds, [2]int{0, 1})
+	}
 	stall := 6 * time.Minute
 	if lib.Thorough() {
 		stall = 40 * time.Minute
